@@ -5,6 +5,11 @@ from Solverz.solvers.daesolver.utilities import *
 from .ntrp15s import ntrp15s
 
 
+# verification hook (SOLVERZ_VERIF=1): one record per accepted step; no effect when the variable is unset
+import os as _os
+_VERIF = _os.environ.get('SOLVERZ_VERIF') == '1'
+_verif_trace = []
+
 maxk = 5
 G = np.array([1, 3 / 2, 11 / 6, 25 / 12, 137 / 60])
 alpha = np.array([-37 / 200, -1 / 9, -0.0823, -0.0415, 0])
@@ -420,6 +425,9 @@ def ode15s(dae: nDAE,
                 break
 
         stats.nstep += 1
+        if _VERIF:
+            _verif_trace.append(dict(t=float(t), tnew=float(tnew), dt=float(dt), absh=float(absh), k=int(k),
+                                     done=bool(done), err=float(err), hmax=float(hmax)))
 
         dif[:, k + 1] = difkp1 - dif[:, k]
         dif[:, k] = difkp1
